@@ -438,7 +438,13 @@ class NostrQuery(BaseModel):
         try:
             for k, v in obj.items():
                 if k.startswith("#") and len(k) == 2 and isinstance(v, list):
-                    tags.append((k[1], set(v)))
+                    try:
+                        values = set(v)
+                    except TypeError:
+                        # unhashable members (lists, objects) are not strings:
+                        # check_tags rejects the filter like any other bad value
+                        values = {None}
+                    tags.append((k[1], values))
             tags.sort(reverse=True)
         except AttributeError:
             raise StorageError("not a query")
